@@ -61,8 +61,13 @@ class Translate(Domain):
         return Points(translated_points, self.space)
 
     def sample_grid(self, n=None, d=None, params=Points.empty(), device="cpu"):
+        # a domain that does not depend on the params is sampled once, the
+        # points are copied for every parameter row afterwards
+        inner_params = params
+        if not any(var in self.domain.necessary_variables for var in params.space):
+            inner_params = Points.empty()
         original_points = self.domain.sample_grid(
-            n=n, d=d, params=params, device=device
+            n=n, d=d, params=inner_params, device=device
         ).as_tensor
         translated_points = self._translate_points(original_points, params)
         return Points(translated_points, self.space)
